@@ -90,7 +90,7 @@ theorem HS_rec6 {id : Bytes} (h : HS none c) :
     HS none { c with handlers := c.handlers.map fun (h : Handler) => { h with enabled := true },
                      idHandlers := c.idHandlers.map fun (h : Handler) =>
                        if h.id = some id then { h with enabled := true } else h } :=
-  ⟨(HS_rec5 h).shape, (HS_rec4 (id := id) h).idk, fun v hv => nomatch hv⟩
+  ⟨(HS_rec5 h).shape, (HS_rec4 (id := id) h).idk, fun _ hv => nomatch hv⟩
 
 theorem HS_notify {e} (h : HS u c) : HS u (notify c e) := by
   unfold notify; (try dsimp only); ctrav; all_goals hside
